@@ -7,9 +7,9 @@
 (*  "agp"     an AGP text the tools wrote (asm-format, pretext-to-asm, the .agp cache), projected  *)
 (*            to line records with integer columns, plus the expected object lengths               *)
 (***************************************************************************************************)
-EXTENDS AgpTpf, Json, IOUtils, TLCExt
+EXTENDS AsmFormatCli, IOUtils, TLCExt
 Traces == JsonDeserialize(IOEnv.TRACE_FILE)
-ASSUME TLCSet(1, 0) /\ TLCSet(2, 0) /\ TLCSet(3, 0)
+ASSUME TLCSet(1, 0) /\ TLCSet(2, 0) /\ TLCSet(3, 0) /\ TLCSet(4, 0)
 VARIABLE tn
 Say(T, kind, clause, detail) == PrintT(<<kind, T.tid, clause, detail>>)
 Cls(T) == IF T.big = 1 THEN "big-coordinates" ELSE IF TpfExpressible(T.asm) THEN "tpf-expressible" ELSE "agp-only"
@@ -38,9 +38,21 @@ JAgp(T) ==
   /\ (T.lossless = 0 \/ AgpValid(T.lines) \/ Say(T, "V", "C06.agp_valid", T.src))
   /\ (T.lossless = 0 \/ (\A q \in 1..Len(T.expect) : T.expect[q].obj \in Objects(T.lines) /\ ObjLength(T.lines, T.expect[q].obj) = T.expect[q].len)
         \/ Say(T, "V", "C06.object_length", T.src))
-Judge(T) == TLCSet(1, TLCGet(1) + 1) /\ CASE T.kind = "rt" -> JRt(T) [] T.kind = "corrupt" -> JCorrupt(T) [] T.kind = "agp" -> JAgp(T)
-TInit == tn = 0 /\ asm = <<>>
-TNext == tn < Len(Traces) /\ tn' = tn + 1 /\ Judge(Traces[tn + 1]) = TRUE /\ UNCHANGED asm
-TraceSpec == TInit /\ [][TNext]_<<tn, asm>>
-Post == PrintT(<<"JUDGED", TLCGet(1)>>) /\ PrintT(<<"N", "round_trips", TLCGet(2)>>) /\ PrintT(<<"N", "agp_texts", TLCGet(3)>>)
+\* asm-format command line (AsmFormatCli.tla): T.sc = scenario, T.exit / T.exc, T.where in {"stdout", "file"}, T.lines = output split into fields
+\* (AGP / TPF output), T.reprs = the assemblies its REPR output evaluates to [name, header, scaffolds], T.nonempty.  Model-drift clauses.
+JAf(T) ==
+  LET s == T.sc  failed == T.exit # 0 \/ T.exc # ""  of == OutFormat(s.f, s.o) IN
+  /\ TLCSet(4, TLCGet(4) + 1)
+  /\ ((failed <=> Fails(s)) \/ Say(T, "M", "asm_format_cli", "fails-iff-unknown-format"))
+  /\ (failed \/ T.where = (IF s.o = "" THEN "stdout" ELSE "file") \/ Say(T, "M", "asm_format_cli", "output-destination"))
+  /\ (failed \/ of \notin {"AGP", "TPF"} \/ T.lines = ExpectedLines(s) \/ Say(T, "M", "asm_format_cli", "text/" \o of))
+  /\ (failed \/ of # "REPR" \/ (Len(T.reprs) = NInputs(s) /\ \A k \in 1..NInputs(s) :
+          T.reprs[k].name = ExpectedNames(s)[k] /\ T.reprs[k].header = AsmOf(s, k).header /\ T.reprs[k].scaffolds = AsmOf(s, k).scaffolds)
+        \/ Say(T, "M", "asm_format_cli", "repr"))
+  /\ (failed \/ of # "STR" \/ T.nonempty = 1 \/ Say(T, "M", "asm_format_cli", "str"))
+Judge(T) == TLCSet(1, TLCGet(1) + 1) /\ CASE T.kind = "rt" -> JRt(T) [] T.kind = "corrupt" -> JCorrupt(T) [] T.kind = "agp" -> JAgp(T) [] T.kind = "afcli" -> JAf(T)
+TInit == tn = 0 /\ asm = <<>> /\ sc = 0
+TNext == tn < Len(Traces) /\ tn' = tn + 1 /\ Judge(Traces[tn + 1]) = TRUE /\ UNCHANGED <<asm, sc>>
+TraceSpec == TInit /\ [][TNext]_<<tn, asm, sc>>
+Post == PrintT(<<"JUDGED", TLCGet(1)>>) /\ PrintT(<<"N", "round_trips", TLCGet(2)>>) /\ PrintT(<<"N", "agp_texts", TLCGet(3)>>) /\ PrintT(<<"N", "asm_format_cli_runs", TLCGet(4)>>)
 ====
